@@ -203,22 +203,24 @@ def showInt : Int → Text
   | .ofNat n => showNat n
   | .negSucc n => 45 :: showNat (n + 1)
 
-/-- `Py_UNICODE_TODECIMAL`: the value of a decimal digit of any script (Unicode category Nd); the generated
-    table `decimalZeros` lists the zero of every run of ten -/
+/-- the value of a decimal digit as the port reader of `parse_url` sees it.  In the code this is the builtin
+    `int()` (`Py_UNICODE_TODECIMAL`: every Unicode category-Nd digit, of any script); the generated table
+    `portZeros` lists the zero of every run of ten digits that the CURRENT `parse_url` accepts in a port
+    (regenerated by probing `parse_url` with every decimal digit the interpreter knows) -/
 def digitVal? (c : Nat) : Option Nat :=
-  (decimalZeros.find? (fun z => z ≤ c && c < z + 10)).map (fun z => c - z)
+  (portZeros.find? (fun z => z ≤ c && c < z + 10)).map (fun z => c - z)
 
 def isPyDigit (c : Nat) : Bool := (digitVal? c).isSome
 
-/-- digits (of any script, mixed freely) with single `_` between digits: the body of a Python integer literal
-    as the builtin `int()` reads it -/
+/-- digits (of any accepted script, mixed freely), with single `_` between digits when `portUnderscore`: the body
+    of a Python integer literal as the builtin `int()` reads it -/
 def pyNatGo : Text → Nat → Option Nat
   | [], acc => some acc
   | c :: rest, acc =>
     match digitVal? c with
     | some d => pyNatGo rest (acc * 10 + d)
     | none =>
-      if c = 95 then
+      if c = 95 ∧ portUnderscore = true then
         match rest with
         | d :: _ => if isPyDigit d then pyNatGo rest acc else none
         | [] => none
@@ -228,16 +230,19 @@ def pyNat? : Text → Option Nat
   | [] => none
   | c :: rest => if isPyDigit c then pyNatGo (c :: rest) 0 else none
 
-/-- what `int()` strips: ASCII `\t\n\v\f\r` and space, and every non-ASCII `str.isspace()` character
-    (generated table; U+001C-U+001F are not in it) -/
-def isPySpace (c : Nat) : Bool := intSpaces.contains c
+/-- what is stripped around the port text: for `int()` ASCII `\t\n\v\f\r` and space, and every non-ASCII
+    `str.isspace()` character (U+001C-U+001F are not among them); the generated table `portSpaces` holds those of
+    them that the current `parse_url` really strips (probed) -/
+def isPySpace (c : Nat) : Bool := portSpaces.contains c
 
-/-- `int(s)` (`none` = ValueError): surrounding white space, one ASCII sign, decimal digits of any script with
-    single underscores.  (The interpreter's limit on the number of digits is outside the model.) -/
+/-- the port reader (`none` = rejected): surrounding white space, one ASCII sign (when `portPlus` / `portMinus`),
+    decimal digits with single underscores.  With the parameters read off the unmodified source this is the
+    builtin `int(s)` (`none` = ValueError); a `parse_url` that accepts fewer spellings (RFC 3986 `port = *DIGIT`)
+    gives smaller tables / cleared flags.  (The interpreter's limit on the number of digits is outside the model.) -/
 def pyInt? (s : Text) : Option Int :=
   match ((s.dropWhile isPySpace).reverse.dropWhile isPySpace).reverse with
-  | 43 :: r => (pyNat? r).map Int.ofNat
-  | 45 :: r => (pyNat? r).map fun n => - Int.ofNat n
+  | 43 :: r => if portPlus then (pyNat? r).map Int.ofNat else none
+  | 45 :: r => if portMinus then (pyNat? r).map fun n => - Int.ofNat n else none
   | r => (pyNat? r).map Int.ofNat
 
 /-! ## `_URL_RE` as a scanner (stop sets and DOTALL come from the generated tables) -/
